@@ -146,8 +146,10 @@ Proof.
   destruct (Nat.ltb_spec probe (length buf)); [|lia].
   destruct (Nat.leb_spec width (length buf)); [|lia].
   cbn [obind_out].
-  set (sz := N.to_nat (le_dec (firstn width buf))).
-  destruct (Nat.ltb_spec (length buf) (sz + c2)) as [|Hc2]; [now left|].
+  set (szn := le_dec (firstn width buf)).
+  destruct (N.ltb_spec (N.of_nat (length buf)) (szn + N.of_nat c2)) as [|Hc2]; [now left|].
+  destruct (N.ltb_spec (N.of_nat (length buf)) (szn + N.of_nat hi)) as [|Hc3]; [lia|].
+  set (sz := N.to_nat szn).
   right. exists sz.
   destruct (Nat.leb_spec lo (hi + sz)); [|lia]. destruct (Nat.leb_spec (hi + sz) (length buf)); [|lia].
   cbn [andb]. replace (hi + sz - lo) with sz by lia. replace lo with width by lia.
@@ -155,7 +157,7 @@ Proof.
   replace (width - 1) with probe by lia.
   destruct (Nat.ltb_spec probe (length buf)); [|lia].
   destruct (Nat.leb_spec width (length buf)); [|lia].
-  subst sz. now rewrite N2Nat.id.
+  subst sz szn. now rewrite N2Nat.id.
 Qed.
 
 (* ---------- dates ---------- *)
